@@ -60,6 +60,10 @@ HISTORIES_QUICK = [
     {"Index": 97, "Coefficient": 98, "Constant": 97, "Label": 99, "Mesh": 99, "BaseFormOperator": 99},
     {"Index": 1000, "Coefficient": 5, "Constant": 50, "Label": 3, "Mesh": 12345, "BaseFormOperator": 17},
     {"Index": 9, "Coefficient": 0, "Constant": 0, "Label": 0, "Mesh": 0, "BaseFormOperator": 0},
+    # the first objects of a family straddle a digit boundary (9 | 10, 99 | 100, 999 | 1000): anything ordered by printed names flips
+    {"Index": 9, "Coefficient": 9, "Constant": 9, "Label": 9, "Mesh": 9, "BaseFormOperator": 9},
+    {"Index": 99, "Coefficient": 99, "Constant": 99, "Label": 99, "Mesh": 99, "BaseFormOperator": 99},
+    {"Index": 998, "Coefficient": 999, "Constant": 999, "Label": 999, "Mesh": 999, "BaseFormOperator": 999},
     {"Index": 0, "Coefficient": 0, "Constant": 9, "Label": 0, "Mesh": 0, "BaseFormOperator": 0},
     {"Index": 0, "Coefficient": 0, "Constant": 0, "Label": 0, "Mesh": 9, "BaseFormOperator": 0},
 ]
